@@ -696,6 +696,46 @@ fn main() {
         },
     );
     {
+        // absolute value, bit for bit: |x| has a clear sign bit for every x, signed zeros included ("if x < 0 { -x } else { x }" hands -0.0 back)
+        let al = [0.0f64, -0.0, 1.0, -2.0, 5e-324, -5e-324, -1e300, f64::MIN_POSITIVE];
+        let amax = 4u32;
+        let total: u64 = (0..=amax).map(|k| (al.len() as u64).pow(k)).sum();
+        ctx.lattice(
+            "Vector<f64> / Vector<f32>::abs bit for bit: all vectors of length 0..4 over {0,-0,1,-2,+-5e-324,-1e300,MIN_POSITIVE}",
+            total,
+            |idx| format!("{}", idx),
+            |idx, acc| {
+                let mut i = idx;
+                let mut len = 0u32;
+                while i >= (al.len() as u64).pow(len) {
+                    i -= (al.len() as u64).pow(len);
+                    len += 1;
+                }
+                let x: Vec<f64> = (0..len).map(|_| {
+                    let v = al[(i % al.len() as u64) as usize];
+                    i /= al.len() as u64;
+                    v
+                }).collect();
+                if x.iter().any(|t| *t == 0.0 && t.is_sign_negative()) {
+                    acc.nontriv("vector holding -0.0");
+                }
+                judge(acc, idx, || format!("abs {:?}", x), || {
+                    let got = Vector::create(x.clone()).abs();
+                    ensure!(got.size() == x.len(), "abs(): size {}", got.size());
+                    for k in 0..x.len() {
+                        ensure!(got[k].to_bits() == (x[k].to_bits() & !(1u64 << 63)), "abs(): element {} of {:?} is {:e} (bits {:#x}): the sign bit must be clear", k, x, got[k], got[k].to_bits());
+                    }
+                    let xf: Vec<f32> = x.iter().map(|t| *t as f32).collect();
+                    let gotf = Vector::create(xf.clone()).abs();
+                    for k in 0..xf.len() {
+                        ensure!(gotf[k].to_bits() == (xf[k].to_bits() & !(1u32 << 31)), "Vector<f32>::abs(): element {} of {:?} is {:e}: the sign bit must be clear", k, xf, gotf[k]);
+                    }
+                    Ok(())
+                });
+            },
+        );
+    }
+    {
         let b = 2.0f64;
         let xl = [0.0, 1.0, -3.0, b.powi(600), -3.0 * b.powi(600), b.powi(-600), 5.0 * b.powi(-620), -b.powi(520), 1e200, -1e-200];
         let emax = ctx.pick(4u32, 6u32);
